@@ -593,3 +593,112 @@ def c11_cases(rng, tier):
 
 def struct_words(b32):
     return [int.from_bytes(b32[i:i + 8], "big", signed=True) for i in range(0, 32, 8)]
+
+
+def words_of_bytes(b):
+    """bytes -> i64 words, zero padded to a multiple of 8 (the layout the crypto ops pop)"""
+    b = bytes(b) + b"\x00" * ((-len(b)) % 8)
+    return [int.from_bytes(b[i:i + 8], "big", signed=True) for i in range(0, len(b), 8)]
+
+
+def c12_cases(rng, tier):
+    from . import common as C
+    rows()
+    cases = []
+    sols = [(ADDR_A, ADDR_B, [[1, 2, 3], [], [7], list(range(50))], []), (ADDR_C, ADDR_A, [[9]], []), (ADDR_A, ADDR_C, [], [])]
+    # --- access ops: slot / offset / length grid
+    for idx in range(3):
+        for s_ in ("THIS", "THISC", "DSLT"):
+            cases.append(case([op(s_)], stack=[5], sols=sols, index=idx))
+            cases.append(case([op(s_)], stack=[1] * (STACK_LIMIT - 3), sols=sols, index=idx))
+            cases.append(case([op(s_)], stack=[1] * (STACK_LIMIT - 4), sols=sols, index=idx))
+        for slot in (-1, 0, 1, 2, 3, 4, I64_MAX):
+            cases.append(case([op("DLEN")], stack=[8, slot], sols=sols, index=idx))
+            for ix in (-1, 0, 1, 2, 3, 49, 50, I64_MAX):
+                for ln in (-1, 0, 1, 2, 3, 50, 51, I64_MAX):
+                    cases.append(case([op("DATA")], stack=[8, slot, ix, ln], sols=sols, index=idx))
+    for st in ([], [0], [0, 0], [1, 1]):
+        cases.append(case([op("DATA")], stack=st, sols=sols))
+        cases.append(case([op("DLEN")], stack=st[:1], sols=sols))
+    cases.append(case([op("DATA")], stack=[1] * (STACK_LIMIT - 40) + [3, 0, 50], sols=sols))
+    # --- PredicateExists: hashes of every solution's (data, address) pre-image, and perturbations
+    import hashlib
+    def pre(s):
+        ws = []
+        for slot in s[2]:
+            ws += [len(slot)] + list(slot)
+        ws += struct_words(s[0]) + struct_words(s[1])
+        return b"".join((w & ((1 << 64) - 1)).to_bytes(8, "big") for w in ws)
+    variants = list(sols) + [(ADDR_A, ADDR_B, [[1, 2, 3], [7]], []), (ADDR_B, ADDR_A, [[1, 2, 3], [], [7], list(range(50))], []),
+                             (ADDR_A, ADDR_B, [[1, 2], [3], [], [7], list(range(50))], []), (ADDR_A, ADDR_B, [[]], []), (ADDR_A, ADDR_B, [], [])]
+    for v in variants:
+        h = hashlib.sha256(pre(v)).digest()
+        cases.append(case([op("PEX")], stack=[4] + struct_words(h), sols=sols))
+        cases.append(case([op("PEX")], stack=[4] + struct_words(h)[::-1], sols=sols))
+        cases.append(case([op("PEX")], stack=[4] + struct_words(h), sols=[(ADDR_A, ADDR_B, [[]], []), (ADDR_A, ADDR_B, [], [])]))
+    cases.append(case([op("PEX")], stack=[1, 2, 3], sols=sols))
+    # --- Sha256: all byte lengths 0..200 (every residue mod 8), wrong word counts, negative length
+    for ln in range(0, 201 if tier == "thorough" else 72):
+        data = bytes((7 * i + ln) & 0xFF for i in range(ln))
+        cases.append(case([op("SHA2")], stack=[9] + words_of_bytes(data) + [ln], sols=sols))
+    for ln in (-1, 1, 8, 9, 17, I64_MAX):
+        cases.append(case([op("SHA2")], stack=[ln], sols=sols))
+        cases.append(case([op("SHA2")], stack=[1, ln], sols=sols))
+    # non-zero padding bytes must be ignored
+    cases.append(case([op("SHA2")], stack=[-1, 3], sols=sols))
+    cases.append(case([op("SHA2")], stack=[1] * (STACK_LIMIT - 2) + [0x0102030405060708, 8], sols=sols))
+    # --- signatures: reference vectors come from the sign crate / ed25519-dalek called directly
+    q = []
+    eds, secs = [], []
+    for i in range(6 if tier == "quick" else 40):
+        sk = bytes(rng.randrange(1, 256) for _ in range(32))
+        msg = bytes(rng.randrange(256) for _ in range(rng.choice([0, 1, 7, 8, 9, 31, 32, 33, 64, 100])))
+        h = hashlib.sha256(msg).digest()
+        q.append(f"e{i} ed_sign {hx(sk)} {hx(msg)}")
+        q.append(f"s{i} secp_sign {hx(sk)} {hx(h)}")
+        eds.append((msg,))
+        secs.append((h,))
+    ans = C.run_bin(C.HARNESS_BIN, q)
+    ed_cases, secp_cases = [], []
+    for i in range(len(eds)):
+        a = ans.get(f"e{i}", "").split(" ")
+        if len(a) == 2:
+            pk, sig = bytes.fromhex(a[0][1:]), bytes.fromhex(a[1][1:])
+            msg = eds[i][0]
+            flip = lambda b, k: b[:k] + bytes([b[k] ^ 1]) + b[k + 1:]
+            ed_cases += [(pk, sig, msg), (pk, flip(sig, 5), msg), (flip(pk, 3), sig, msg), (pk, sig, msg + b"x"),
+                         (pk, sig, msg[:-1]) if msg else (pk, sig, b"y"), (bytes([0xFF] * 32), sig, msg), (bytes(32), sig, msg)]
+        a = ans.get(f"s{i}", "").split(" ")
+        if len(a) == 3:
+            sig, rid, pk = bytes.fromhex(a[0][1:]), int(a[1]), bytes.fromhex(a[2][1:])
+            h = secs[i][0]
+            secp_cases += [(h, sig, rid), (h, sig, rid ^ 1), (h, sig, 2), (h, sig, 3), (h, sig, 4), (h, sig, -1), (h, sig, 255),
+                           (h, sig, rid + (1 << 32)), (h, sig, I64_MIN), (h[::-1], sig, rid), (h, sig[::-1], rid),
+                           (h, bytes([0xFF] * 64), rid), (h, bytes(64), rid), (h, sig[:32] + bytes(32), rid),
+                           (h, bytes([0xFF] * 32) + sig[32:], rid), (bytes(32), sig, rid)]
+    ones = lambda n: b"".join((1).to_bytes(8, "big") for _ in range(n))
+    secp_cases.append((ones(4), ones(8), 1))
+    ed_cases.append((ones(4), ones(8), b""))
+    q2 = [f"e{i} ed_verify {hx(pk)} {hx(sig)} {hx(msg)}" for i, (pk, sig, msg) in enumerate(ed_cases)]
+    q2 += [f"s{i} secp_recover {hx(h)} {hx(sig)} {max(min(rid, 2**31 - 1), -2**31)}" for i, (h, sig, rid) in enumerate(secp_cases)]
+    ans2 = C.run_bin(C.HARNESS_BIN, q2)
+    for i, (pk, sig, msg) in enumerate(ed_cases):
+        r = ans2.get(f"e{i}")
+        if r not in ("0", "1", "2"):
+            continue
+        st = [6] + words_of_bytes(msg) + [len(msg)] + words_of_bytes(sig) + words_of_bytes(pk)
+        cases.append(case([op("VRFYED")], stack=st, sols=sols, eds=[(pk, sig, msg, int(r))]))
+    for i, (h, sig, rid) in enumerate(secp_cases):
+        r = ans2.get(f"s{i}")
+        if not r:
+            continue
+        tab = []
+        if -2**31 <= rid < 2**31 and 0 <= rid <= 3:
+            tab = [(h, sig, rid, r if r in ("b", "u") else "k " + r.split(" ")[1])]
+        st = [6] + words_of_bytes(h) + words_of_bytes(sig) + [rid]
+        cases.append(case([op("RSECP")], stack=st, sols=sols, secps=tab))
+    for st in ([], [1] * 12):
+        cases.append(case([op("VRFYED")], stack=st, sols=sols))
+        cases.append(case([op("RSECP")], stack=st, sols=sols))
+    oracles = [as_oracle(c, "o_access") for c in cases]
+    return cases, oracles
